@@ -170,7 +170,7 @@ def snapshot(o):
     if isinstance(o, pd.DataFrame):
         return ("F", [str(c) for c in o.columns], [str(d) for d in o.dtypes],
                 type(o.index).__name__, _bytes(o.index),
-                [_cells(o[c].values) for c in o.columns])
+                [_cells(o.iloc[:, j].values) for j in range(o.shape[1])])  # (labels may repeat)
     if isinstance(o, np.ndarray):
         return ("A", str(o.dtype), o.shape, bool(o.flags.writeable),
                 hashlib.sha256(np.ascontiguousarray(o).tobytes()).hexdigest())
